@@ -320,6 +320,9 @@ func mutateProto(r *rand.Rand, p randProto) randProto {
 		switch r.Intn(9) {
 		case 0:
 			q.pe.Depth = p.pe.Depth + 1
+			if q.pe.Depth > 9007199254740991 {
+				q.pe.Depth = p.pe.Depth - 1
+			}
 		case 1:
 			q.now = p.now + 1
 		case 2:
@@ -508,7 +511,7 @@ func record(a *hx.Args) error {
 		steps := 1 + r.Intn(4)
 		for s := 0; s < steps && tw.N < a.N; s++ {
 			ln := traceLine{Ver: p.ver, Raw: string(cur), BRed: red}
-			x := r.Intn(10)
+			x := 2 + r.Intn(8) // mode c03: every operation but tampering
 			if c04 {
 				x = 0
 			}
